@@ -193,6 +193,10 @@ func init() {
 				}
 				o.storeID = r.Chance(30)
 				o.zeof = r.Chance(25)
+				if r.Chance(20) {
+					o.dataPad = pick(r, []uint64{0, 1, 4095, 4096})
+					o.indexPad = pick(r, []uint64{0, 1, 4095, 4096})
+				}
 				switch r.Intn(6) {
 				case 0:
 					o.maxCid = uint64(maxCidLen)
@@ -245,6 +249,33 @@ func init() {
 			emitWrap(fileOpts, 1, payload, valid, nt)
 			if !huge {
 				emitWrap(randOpts(memMaxSeek), 0, payload, valid, nt)
+				// option rows: every Option the API accepts, one at a time, on WrapV1 over a
+				// bytes.Reader and over files (the padding options are ignored by WrapV1 at HEAD)
+				{
+					rows := []func(o *xOpts){
+						func(o *xOpts) { o.dataPad = 1 }, func(o *xOpts) { o.dataPad = 4095 }, func(o *xOpts) { o.dataPad = 4096 },
+						func(o *xOpts) { o.indexPad = 1 }, func(o *xOpts) { o.indexPad = 4095 }, func(o *xOpts) { o.indexPad = 4096 },
+						func(o *xOpts) { o.dataPad, o.indexPad = pick(r, []uint64{1, 4095, 4096}), pick(r, []uint64{1, 4095, 4096}) },
+						func(o *xOpts) { o.storeID = true }, func(o *xOpts) { o.zeof = true },
+						func(o *xOpts) { o.maxCid = uint64(maxCidLen) }, func(o *xOpts) { o.maxCid = 1 << 40 },
+						func(o *xOpts) { o.codec = 0x0400 }, func(o *xOpts) { o.codec = 0x0401 }, func(o *xOpts) { o.codec = 0x300000 },
+					}
+					// four rows per archive (all rows are covered across archives), plus always one padding row
+					picks := []int{r.Intn(7), r.Intn(len(rows)), r.Intn(len(rows)), r.Intn(len(rows))}
+					for _, k := range picks {
+						for _, mode := range []uint64{0, 4} {
+							o := defaultXOpts
+							o.maxSeek = memMaxSeek
+							if mode == 4 {
+								o.maxSeek = fileSeek
+							}
+							rows[k](&o)
+							emitWrap(o, mode, payload, valid, nt)
+						}
+						c.Count("wrap:option-row=" + []string{"datapad1", "datapad4095", "datapad4096", "indexpad1", "indexpad4095", "indexpad4096", "bothpad",
+							"storeid", "zeof", "maxcid-exact", "maxcid-huge", "codec-sorted", "codec-mh-sorted", "codec-none"}[k])
+					}
+				}
 				// destination state: a file is already there -- shorter than, exactly as long as, one
 				// byte longer than, much longer than what is about to be written (os.Create truncates)
 				wl := 51 + len(payload) + len(index)
@@ -368,6 +399,10 @@ func init() {
 				} else {
 					o.storeID = r.Chance(30)
 					o.codec = pick(r, []uint64{0, 0x0400, 0x0401})
+					if r.Chance(35) {
+						o.dataPad = pick(r, []uint64{0, 1, 4095, 4096})
+						o.indexPad = pick(r, []uint64{0, 1, 4095, 4096})
+					}
 				}
 				in := VL{o.val(), VB(payload), d, tabFor(payload, true), VN(chunkFor(r, len(payload)))}
 				obs := runRtripImpl(c, o, payload, d)
